@@ -1340,7 +1340,6 @@ func reachingStore(root *ssa.Alloc, load ssa.Instruction) ssa.Value {
 	return best.Val
 }
 
-
 func storesField(g *ssa.Function, fv *types.Var, depth int) bool {
 	found := false
 	Instrs(g, func(in ssa.Instruction) {
